@@ -7,6 +7,7 @@ package varmq
 // Payloads are job keys (ints); the harness worker function derives its outcome from the key.
 
 import (
+	"io"
 	"encoding/json"
 	"github.com/goptics/varmq/internal/helpers"
 	"github.com/goptics/varmq/internal/queues"
@@ -176,6 +177,13 @@ func (ep *episode) wfBodyC(j Job[int], cons int) (int, error) {
 	ep.g.point("wf.enter", "job", key, "id", j.ID(), "status", st, "inwf", n, "cons", cons)
 	for i := 0; i < ep.prog.Spin; i++ {
 		runtime.Gosched()
+	}
+	if key%4 == 1 {
+		// a worker function that tries to cancel its own job: Close on a job that is Processing must refuse and change nothing
+		// (in particular it must not acknowledge the entry before the function has returned)
+		if c, ok := j.(io.Closer); ok {
+			c.Close()
+		}
 	}
 	if sp, ok := j.(StatusProvider); ok {
 		st = sp.Status()
